@@ -1,25 +1,25 @@
-// C16 conformance harness (part 1: fcppt.algorithm over ranges).
+// C16 conformance harness (parts "counts" and "strings": repeat / generate_n, split_string /
+// join_strings).
 //
-//   c16_algo record OUT seed tier(quick|thorough) [part]
-//
-// Drives every listed fcppt::algorithm function over all sequences over {0,1,2} up to length 6
-// (sources: std::vector/list/deque/set/multiset/map, fcppt::array, fcppt::int_range,
-// fcppt::enum_::range, fcppt::tuple, fcppt::mpl::list), with user functions given as tables, and
-// writes one ndjson record per call: inputs, result, final state of mutated containers, call
-// log.  No expected values here: spec/AlgorithmsJudge.tla (TLC) judges every record.
-#include "c16_range.hpp"
+// Every unit of the harness only DRIVES the real fcppt functions and writes one ndjson record per
+// call: inputs, result, final state of mutated containers, call log.  No expected values here:
+// spec/AlgorithmsJudge.tla (TLC) judges every record.  Entry point and part table: c16_main.cpp.
+#include "c16_common.hpp"
+
+#include <fcppt/algorithm/generate_n.hpp>
+#include <fcppt/algorithm/join_strings.hpp>
+#include <fcppt/algorithm/repeat.hpp>
+#include <fcppt/algorithm/split_string.hpp>
+
+#include <deque>
+#include <list>
+#include <set>
+#include <string>
+#include <vector>
 
 namespace c16
 {
-void run_containers(Sel &, bool thorough); // c16_cont.cpp
-void run_vector(Sel &, bool thorough);     // c16_src_vector.cpp
-void run_list(Sel &, bool thorough);       // c16_src_list.cpp
-void run_deque(Sel &, bool thorough);      // c16_src_deque.cpp
-void run_assoc(Sel &, bool thorough);      // c16_src_assoc.cpp
-void run_static(Sel &, bool thorough);     // c16_src_static.cpp
-void run_ranges(Sel &, bool thorough);     // c16_src_ranges.cpp
-void run_extension(Sel &, bool thorough);  // c16_ext.cpp (observed-only kinds)
-void run_fold_tables(bool thorough);        // c16_ext.cpp
+using ivec = std::vector<int>;
 
 namespace
 {
@@ -72,6 +72,54 @@ void count_algos()
       do_generate_n<std::set<int>>("set", static_cast<std::size_t>(n), idx);
     }
   }
+  // (round 3 audit) counts beyond the exhaustive bound: around the limits of 8- and 16-bit counters
+  // (a loop counter or a size of a narrower type wraps there)
+  static int const big[] = {8, 20, 100, 127, 128, 255, 256, 257, 1000};
+  for (int const n : big)
+  {
+    do_repeat<int>("int", n);
+    do_repeat<unsigned>("unsigned", static_cast<unsigned>(n));
+    do_repeat<std::size_t>("size_t", static_cast<std::size_t>(n));
+    do_repeat<long long>("llong", static_cast<long long>(n));
+    do_repeat<short>("short", static_cast<short>(n));
+    if (n <= 255) do_repeat<unsigned char>("uchar", static_cast<unsigned char>(n));
+    if (n <= 127) do_repeat<signed char>("schar", static_cast<signed char>(n));
+    for (int idx = 5; idx < 27; idx += 7)
+    {
+      do_generate_n<std::vector<int>>("vector", static_cast<std::size_t>(n), idx);
+      do_generate_n<std::list<int>>("list", static_cast<std::size_t>(n), idx);
+      do_generate_n<std::deque<int>>("deque", static_cast<std::size_t>(n), idx);
+      do_generate_n<std::set<int>>("set", static_cast<std::size_t>(n), idx);
+    }
+  }
+  // negative counts (signed Count): the loop `for (i = 0; i < count; ++i)` makes no call.  The statement
+  // says "calls it count times", which is silent about negative counts: OBSERVED ONLY (kind repeat_negative)
+  for (int const n : {-1, -2, -128, -70000})
+  {
+    {
+      Rec r("repeat_negative");
+      r.ks("count", "int").ki("n", n).begin();
+      fcppt::algorithm::repeat(n, [] { lg("0"); });
+      r.end_calls();
+    }
+    {
+      Rec r("repeat_negative");
+      r.ks("count", "llong").ki("n", n).begin();
+      fcppt::algorithm::repeat(static_cast<long long>(n), [] { lg("0"); });
+      r.end_calls();
+    }
+    if (n >= -128)
+    {
+      Rec r("repeat_negative");
+      r.ks("count", "schar").ki("n", n).begin();
+      fcppt::algorithm::repeat(static_cast<signed char>(n), [] { lg("0"); });
+      r.end_calls();
+    }
+  }
+  do_repeat<int>("int", 65539);
+  do_repeat<std::size_t>("size_t", 65539U);
+  do_repeat<unsigned short>("ushort", static_cast<unsigned short>(65535U));
+  do_generate_n<std::vector<int>>("vector", 65539U, 11);
 }
 
 // ---------------------------------------------------------------- split_string / join_strings
@@ -125,6 +173,49 @@ void string_algos(bool thorough)
       do_split<std::vector<int>, int>("intvector", v, 7, 8, 0);
     }
   });
+  // (round 3 audit) strings beyond the exhaustive bound: lengths 8..40 (std::string leaves its
+  // small-string buffer at 16 characters), few and many delimiters, delimiter at both ends
+  {
+    vj::Rng rng(12345U);
+    static unsigned const lens[] = {8, 9, 10, 12, 15, 16, 17, 23, 31, 32, 40};
+    for (unsigned const len : lens)
+      for (unsigned k = 0; k < (thorough ? 12U : 4U); ++k)
+      {
+        ivec v;
+        unsigned const dens = 2U + k % 4U; // one character in `dens` is a delimiter
+        for (unsigned i = 0; i < len; ++i) v.push_back(rng.below(dens) == 0 ? 2 : static_cast<int>(rng.below(2)));
+        if (k % 4U == 1U) v.front() = v.back() = 2;
+        if (k % 4U == 3U) v = ivec(len, 2);
+        do_split<std::string, char>("string", v, 'a', 'b', ',');
+        do_split<std::wstring, wchar_t>("wstring", v, L'a', L'\x20ac', L'|');
+        do_split<std::vector<int>, int>("intvector", v, 7, 8, 0);
+      }
+    // join_strings: 4..9 elements, elements and delimiters beyond the small-string buffer
+    std::vector<std::string> const long_delims{"", ",", ", ", "-----------------+", "ab"};
+    for (unsigned n = 4; n <= 9; ++n)
+      for (unsigned k = 0; k < (thorough ? 8U : 3U); ++k)
+      {
+        std::vector<std::string> parts;
+        for (unsigned i = 0; i < n; ++i)
+        {
+          unsigned const len = rng.below(3) == 0 ? 0U : static_cast<unsigned>(rng.below(k == 0 ? 4U : 24U));
+          std::string p;
+          for (unsigned j = 0; j < len; ++j) p.push_back("ab,"[rng.below(3)]);
+          parts.push_back(p);
+        }
+        if (k == 1) parts.front().clear(), parts.back().clear();
+        for (std::string const &d : long_delims)
+        {
+          do_join<std::vector<std::string>>("vector", parts, d);
+          do_join<std::list<std::string>>("list", parts, d);
+          do_join<std::deque<std::string>>("deque", parts, d);
+        }
+        std::vector<std::wstring> wparts;
+        for (auto const &p : parts) wparts.emplace_back(p.begin(), p.end());
+        do_join<std::vector<std::wstring>>("wvector", wparts, std::wstring(L"||"));
+        do_join<std::list<std::wstring>>("wlist", wparts, std::wstring());
+      }
+  }
   // join_strings on lists of <= 3 strings of length <= 2 over {a,b,','}, delimiters of length 0..2
   std::vector<std::string> pool;
   each_seq_upto(2, 3, [&](ivec const &v) { pool.push_back(mk_string<std::string>(v, 'a', 'b', ',')); });
@@ -154,34 +245,6 @@ void string_algos(bool thorough)
 
 }
 
-int main(int argc, char **argv)
-{
-  if (argc < 5 || std::strcmp(argv[1], "record") != 0)
-  {
-    std::fprintf(stderr, "usage: c16_algo record OUT seed quick|thorough [part]\n");
-    return 3;
-  }
-  vj::open(argv[2]);
-  std::uint64_t const seed = std::strtoull(argv[3], nullptr, 10);
-  bool const thorough = std::strcmp(argv[4], "thorough") == 0;
-  std::string const part = argc > 5 ? argv[5] : "all";
-  auto const on = [&part](char const *p) { return part == "all" || part == p; };
-  c16::Sel sel(seed, thorough);
-  if (on("vector")) c16::run_vector(sel, thorough);
-  if (on("list")) c16::run_list(sel, thorough);
-  if (on("deque")) c16::run_deque(sel, thorough);
-  if (on("assoc")) c16::run_assoc(sel, thorough);
-  if (on("static")) c16::run_static(sel, thorough);
-  if (on("ranges"))
-  {
-    c16::run_ranges(sel, thorough);
-    c16::count_algos();
-  }
-  if (on("strings")) c16::string_algos(thorough);
-  if (on("containers")) c16::run_containers(sel, thorough);
-  if (on("extension")) c16::run_extension(sel, thorough);
-  if (on("foldtables")) c16::run_fold_tables(thorough);
-  vj::close();
-  std::printf("records %ld\n", c16::NREC());
-  return 0;
-}
+extern "C" void c16_part_counts(unsigned long long, int) { c16::count_algos(); }
+
+extern "C" void c16_part_strings(unsigned long long, int const thorough) { c16::string_algos(thorough != 0); }
